@@ -45,7 +45,7 @@ REG.bounded_check("C01.instrumented_execution", ["C01"], "C01.bounded",
                   bound="14 programs x 1-4 argument tuples: every evaluated Name/Subscript/Call/BinOp/IfExp/BoolOp/Compare node's runtime value must belong to its inferred type (annotate_code)")
 REG.bounded_check("C10.determinism", ["C10"], "C10.bounded",
                   covers=["the whole checker on the corpus: union member order, listed names, message text"],
-                  bound="9 source files (format mapping keys, unexpected keywords, or/and narrowing, unused variables, branch unions, protocols, overloads) x PYTHONHASHSEED in {0,1,2,3,7} in fresh subprocesses, and two check orders in one process; module-name tokens normalised")
+                  bound="14 source files (format mapping keys, unexpected keywords, or/and narrowing, `in` narrowing, unused variables, branch unions, protocols, overloads, try/with definitions, nested functions, stdlib calls) x PYTHONHASHSEED in {0,1,2,3,7} in fresh subprocesses; two check orders in one process; one Checker shared by all files (both orders) against the fresh-Checker baseline; module-name tokens normalised")
 REG.bounded_check("C19.literal_operations", ["C19"], "C19.bounded",
                   covers=["NameCheckVisitor.visit_BinOp / visit_UnaryOp / _check_dunder_call", "signature._maybe_perform_call", "attributes._get_attribute_from_known / _get_attribute_from_mro",
                           "implementation subscript impls (tuple / str / list __getitem__)"],
@@ -64,7 +64,7 @@ REG.bounded_check("C02.conditions", ["C02"], "C02.conditions",
                   covers=["NameCheckVisitor.visit_BoolOp / visit_UnaryOp (not) / constraint_from_condition", "stacked_scopes.extract_constraints / AndConstraint.make / OrConstraint.make / OrConstraint.apply / invert",
                           "the isinstance / is / truthiness / == condition-to-constraint translation"],
                   bound="10 atomic conditions on x: Union[int, str, None] (isinstance, is None, truthiness, ==, an opaque call), all ordered pairs under and / or, 80 three-operand shapes with not / nesting, "
-                        "x in {1, 0, 's', '', None} x both results of the opaque call: the value that takes a branch at run time belongs to the type x is narrowed to there")
+                        "x in {1, 0, 's', '', None} x both results of the opaque call: the value that takes a branch at run time belongs to the type x is narrowed to there; 52 comparisons of len(y) with a constant on either side on tuples of length 0-4")
 REG.bounded_check("C05.binding", ["C05"], "C05.bounded",
                   covers=["Signature.bind_arguments", "signature.preprocess_args (literal * / ** arguments, merging)", "arg_spec.ArgSpecCache.from_signature (def statements)", "the visitor's call-site argument collection"],
                   bound="180 def signatures (<= 4 parameters: positional-only, positional-or-keyword, *args, keyword-only, **kwargs, every default pattern) x 140 sampled (quick) / all 512 (thorough) call shapes "
@@ -87,4 +87,4 @@ REG.bounded_check("C12.totality", ["C12"], "C12.bounded",
                   covers=["NameCheckVisitor on generated modules (catch-all, location extraction, context rendering)", "annotations._Visitor on odd annotations", "Value.can_assign / is_assignable / unite_values / substitute_typevars / can_overlap / __eq__ / __hash__ / __str__ on generated values"],
                   bound="120 (quick) / 600 (thorough) modules of 3-8 functions drawn from 118 statement templates and 57 odd annotation texts in 5 positions (string annotations on variables, parameters, returns, cast) (wrong arities, bad operands, undefined names, odd annotations, decorators, classes, comprehensions, lambdas, "
                         "star-expressions, f-strings, walrus, match, async), all error codes enabled as in the project's tests: no exception, no internal_error, registered code, line inside the file, column inside the line, "
-                        "non-empty message; 36 x 36 pairs of Values (every Value class, TypeVars, empty / nested shapes): the value API returns")
+                        "non-empty message; 41 x 41 pairs of Values (every Value class, TypeVars, empty / nested shapes, literal unions of >= 10 members against unhashable literals): the value API returns")
